@@ -224,6 +224,13 @@ where
 static CLEARED_TIMER_IDS: LazyLock<Mutex<HashSet<TimerId>>> =
     LazyLock::new(|| Mutex::new(HashSet::new()));
 
+/// Size of the process-wide set of cleared timer ids (verification accessor)
+#[cfg(crux_verif)]
+#[must_use]
+pub fn verif_cleared_timer_ids_len() -> usize {
+    CLEARED_TIMER_IDS.lock().unwrap().len()
+}
+
 #[cfg(test)]
 mod test {
     use super::*;
